@@ -49,6 +49,10 @@ async def map_async_iterable(
     If the inner iterator supports an `aclose()` method, it will be called when
     the generator finishes or closes.
     """
-    async with aclosing(iterable) as items:
-        async for item in items:
+    # iterate explicitly, so that the iterator that has been started is the one
+    # that gets closed (it may be a different object than the iterable)
+    iterator = iterable.__aiter__()
+    closable = iterator if hasattr(iterator, "aclose") else iterable
+    async with aclosing(closable):
+        async for item in iterator:
             yield await callback(item)
